@@ -137,7 +137,14 @@ func c15PrepDrainedPool(t *testing.T, a *chain.App, ctx sdk.Context, e *c15Env) 
 
 func c15PrepEnglishOff(t *testing.T, a *chain.App, ctx sdk.Context, e *c15Env) (sdk.Context, string) {
 	c15ApplyFault(t, a, ctx, e, "english-off", nil)
-	return ctx, "english-off"
+	// a second unit AFTER the failing one in the sweep's order (same app, next asset): an auction mapping
+	// whose pair has nothing to do in this block.  The sweep must still reach it when the first unit
+	// reports its failure (the error case compares how often the hook ran the unit function)
+	if err := a.CollectorKeeper.WasmSetAuctionMappingForApp(ctx, &bindings.MsgSetAuctionMappingForApp{AppID: e.appHarbor, AssetIDs: e.assets[3], IsSurplusAuctions: true,
+		IsDebtAuctions: false, IsDistributor: false, AssetOutOraclePrices: false, AssetOutPrices: 1000000}); err != nil {
+		t.Fatalf("second auction mapping: %v", err)
+	}
+	return ctx, "english-off+second-unit"
 }
 
 // two external locker-reward programmes, the first on the swap app (with a locker that earns), the
